@@ -109,6 +109,31 @@ def run_matrix(spec, acc, api, con):
                 e = {'unary': {'op': op, 'expr': {'variable': 'aa'}}}
                 one_eval(e, {'aa': a}, acc, api, con, {'expr': e, 'globals': refval.enc({'aa': a})})
                 acc.case(('u' + op, repr(a)), a is not None)
+    if spec['rem'] == 0:
+        # the special forms and built-ins with every argument COUNT (0..6): surplus / missing arguments are ignored or fail the call,
+        # through text and through models (the `if` form is evaluated outside the call wrapper)
+        from bare_script.parser import parse_expression
+        for fname in ('if', 'max', 'min', 'len', 'abs', 'round', 'date', 'text', 'indexOf', 'nosuchfn'):
+            for n in range(0, 7):
+                for pool_args in ([{'number': float(k)} for k in range(n)], [{'variable': 'aa'}] * n, [{'string': 'x'}] * n):
+                    e = {'function': {'name': fname, 'args': pool_args}}
+                    for builtins in (True, False):
+                        case = {'expr': e, 'builtins': builtins}
+                        acc.case(('arity', fname, n, json.dumps(pool_args[:1]), builtins), True)
+                        try:
+                            evaluate_expression(e, {'globals': {'aa': None}}, None, builtins)
+                        except rt_err:
+                            pass
+                        except Exception as exc:  # pylint: disable=broad-except
+                            acc.violation('host-exception-escaped', f'{fname} with {n} arguments (builtins={builtins}): {type(exc).__name__}: {exc}', case)
+                        acc.count('arity_sweep_evaluations')
+            e2 = {'function': {'name': fname}}  # a call model without an args member is schema-valid
+            try:
+                evaluate_expression(e2, {'globals': {}}, None, True)
+            except rt_err:
+                pass
+            except Exception as exc:  # pylint: disable=broad-except
+                acc.violation('host-exception-escaped', f'{fname} without an args member: {type(exc).__name__}: {exc}', {'expr': e2})
     acc.sample({'matrix': '14 operators x adversarial pool^2', 'pool_size': len(P), 'example': ['1 / 0', '(0-8) ** 0.5', '10**400 + 0.5']}, limit=1)
 
 
@@ -258,6 +283,7 @@ def run_library(spec, acc, api, con):
         data_functions_without_options(acc, api)
         data_functions_report_failures(acc, api)
         script_function_failures(acc, api)
+        system_fetch_failures(acc, api)
 
 
 DOCUMENTED_FAILURE = {'arrayIndexOf': -1, 'arrayLastIndexOf': -1, 'arrayLength': 0, 'objectHas': False, 'stringIndexOf': -1,
@@ -426,6 +452,53 @@ def script_function_failures(acc, api):
                 acc.violation('host-exception-escaped', f'evaluate_expression calling the script function {name} with {label}: {type(exc).__name__}: {exc}', {'fn': name, 'how': label})
                 continue
             acc.count('script_function_failure_checks')
+
+
+def system_fetch_failures(acc, api):
+    """systemFetch over a host fetchFn that answers some requests and fails others (raises, returns nothing), in every position of
+    the array form and in the single forms: each failed request evaluates to null - never to an earlier answer -, each failure is
+    reported once in debug mode, and nothing escapes."""
+    import itertools
+    import bare_script
+    rt_err = api[2]
+
+    def fetch(req):
+        u = req['url']
+        if 'raise' in u:
+            raise OSError('no route to ' + u)
+        if 'none' in u:
+            return None
+        return 'text of ' + u + ('|' + req['body'] if req.get('body') else '')
+    for n in (1, 2, 3, 4):
+        for kinds in itertools.product(('ok', 'raise', 'none'), repeat=n):
+            urls = [f'{k}{i}.txt' for i, k in enumerate(kinds)]
+            want = [('text of ' + u) if k == 'ok' else None for u, k in zip(urls, kinds)]
+            forms = [('array', "systemFetch(arrayNew(" + ', '.join(f"'{u}'" for u in urls) + "))", want),
+                     ('array-of-requests', "systemFetch(arrayNew(" + ', '.join(f"objectNew('url', '{u}')" for u in urls) + "))", want)]
+            if n == 1:
+                forms += [('string', f"systemFetch('{urls[0]}')", want[0]), ('request', f"systemFetch(objectNew('url', '{urls[0]}', 'body', 'bb'))", (want[0] + '|bb') if want[0] else None)]
+            for form, call, expected in forms:
+                for debug in (False, True):
+                    logs = []
+                    case = {'call': call, 'debug': debug}
+                    acc.case(('systemFetch', call, debug), True)
+                    try:
+                        res = bare_script.execute_script(bare_script.parse_script('return ' + call), {'globals': {}, 'fetchFn': fetch, 'logFn': logs.append, 'debug': debug})
+                    except rt_err as exc:
+                        acc.violation('library-failure-stopped-run', f'{call}: {exc}', case)
+                        continue
+                    except Exception as exc:  # pylint: disable=broad-except
+                        acc.violation('host-exception-escaped', f'{call}: {type(exc).__name__}: {exc}', case)
+                        continue
+                    acc.count('system_fetch_failure_checks')
+                    nfail = sum(1 for k in kinds if k != 'ok')
+                    lines = [l for l in logs if 'systemFetch' in l]
+                    if res != expected:
+                        acc.violation('failure-value', f'{call} (debug={debug}) = {res!r:.300}, expected {expected!r:.300}', case)
+                    elif debug and len(lines) != nfail:
+                        acc.violation('debug-log-count', f'{call}: {nfail} failed requests, {len(lines)} report lines {lines[:3]!r:.300}', case)
+                    elif not debug and lines:
+                        acc.violation('logged-without-debug', f'{call}: {lines[:2]}', case)
 
 
 def data_functions_report_failures(acc, api):
